@@ -54,6 +54,18 @@ func (C07) Explore(x *kernel.Explorer, seed uint64) {
 				}
 			}
 		}
+		// two long identities that differ only near the end (contexts and paths built from long ids)
+		if r.Chance(1, 2) {
+			long := strings.Repeat("long-client-id_", 7)[:100]
+			for _, kind := range []string{KStoragePair, KStorageSym, KHmac} {
+				for _, c := range []string{long + "-first", long + "-second"} {
+					if r.Chance(3, 4) {
+						id++
+						plan.Ops = append(plan.Ops, kernel.Op{ID: id, Kind: OGen, S: []string{kind, c}, A: []int64{0, drawClock(r, format)}})
+					}
+				}
+			}
+		}
 		// hostile client ids
 		for j := 0; j < 3+r.Intn(5); j++ {
 			id++
